@@ -128,6 +128,17 @@ func (c *Ctx) modTargets(env *SpecEnv, cl *Clause) []modTarget {
 		// field target through pointer: x.f
 		if s, ok := x.(*SSel); ok {
 			base := env.eval(s.X)
+			if sc, ok := base.(Scalar); ok {
+				if n, td := c.ghostOwner(sc.Ty); td != nil {
+					for _, g := range td.Ghost {
+						if g.Name == s.Name {
+							idx := c.idx(0)
+							add(c.elemPrefix(n)+"."+s.Name, c.resolveTypeText(g.Type), sc.T, &idx)
+							return
+						}
+					}
+				}
+			}
 			if p, ok := base.(Ptr); ok {
 				stt, ok := p.Elem.Underlying().(*types.Struct)
 				if !ok {
